@@ -371,9 +371,24 @@ func parseOnly(src string, mode int, fuel int64) (res runner.Result) {
 // named: the stack is sampled at consecutive ticks and the innermost frame common to all samples
 // is the function that never returns.
 func decideHang(src string, mode int) (key, detail string, done *runner.Result) {
-	probeBad := func(s string) bool { return parseOnly(s, mode, probe(len(s))).Kind == "fuel" }
+	// memoised: inputs of one shard share most of their reduction candidates
+	probeBad := func(s string) bool {
+		k := string(rune('0'+mode)) + s
+		if v, ok := probeMemo[k]; ok {
+			return v
+		}
+		v := parseOnly(s, mode, probe(len(s))).Kind == "fuel"
+		if len(probeMemo) > 200_000 {
+			probeMemo = map[string]bool{}
+		}
+		if len(s) <= 256 {
+			probeMemo[k] = v
+		}
+		return v
+	}
 	red := canonText(reduceText(src, mode, probeBad), probeBad)
-	if k, ok := hangCache[red]; ok {
+	hk := string(rune('0'+mode)) + red
+	if k, ok := hangCache[hk]; ok {
 		if k[0] != "" {
 			return k[0], k[1], nil
 		}
@@ -381,10 +396,10 @@ func decideHang(src string, mode int) (key, detail string, done *runner.Result) 
 		b := cappedBound(len(red))
 		if parseOnly(red, mode, b).Kind == "fuel" && b == bound(len(red)) {
 			key, detail = attribute(red, mode, b)
-			hangCache[red] = [2]string{key, detail}
+			hangCache[hk] = [2]string{key, detail}
 			return key, detail, nil
 		}
-		hangCache[red] = [2]string{"", ""}
+		hangCache[hk] = [2]string{"", ""}
 	}
 	// no small violating text: decide the original itself
 	b := cappedBound(len(src))
@@ -439,6 +454,7 @@ const hangSamples = 1200
 const hangStable = 400
 
 var hangCache = map[string][2]string{}
+var probeMemo = map[string]bool{}
 
 func probe(n int) int64 {
 	p := int64(300*(n+1) + 5000)
